@@ -72,10 +72,11 @@ const stepTimeout = 20 * time.Second
 
 // xfer is one transfer connection to the real handler.
 type xfer struct {
-	srv  *hotline.Server
-	ref  [4]byte
-	ce   *sim.End
-	done chan struct{}
+	srv     *hotline.Server
+	ref     [4]byte
+	ce      *sim.End
+	done    chan struct{}
+	pending []byte // server bytes received but not yet consumed by the client (upload direction)
 }
 
 func startXfer(w *sim.World, ref []byte, addr string) *xfer {
@@ -321,6 +322,29 @@ func diskSize(p string) int {
 	return int(fi.Size())
 }
 
+// need makes at least n unread server bytes available.  The server's side of the connection is a byte stream: bytes
+// that arrived earlier than expected are the answer to whatever the client sends next, exactly as a real client
+// reading the socket would take them.  Returns false when the server can send nothing more without input (st says
+// why: "waiting" = blocked reading, "finished", "stalled").
+func (x *xfer) need(n int) (ok bool, st string) {
+	st = "buffered"
+	for len(x.pending) < n {
+		b, s := x.quiesce()
+		st = s
+		x.pending = append(x.pending, b...)
+		if len(b) == 0 || s == "stalled" {
+			break
+		}
+	}
+	return len(x.pending) >= n, st
+}
+
+func (x *xfer) take(n int) []byte {
+	b := x.pending[:n]
+	x.pending = x.pending[n:]
+	return b
+}
+
 func (wk *worker) upload(run int, runDir, F string, count int, items []step) (evs []ev, wasCut bool) {
 	total := 0
 	for _, it := range items {
@@ -332,20 +356,20 @@ func (wk *worker) upload(run int, runDir, F string, count int, items []step) (ev
 	bad := err != nil || rep.Err != 0 || !okRef || len(ref) != 4
 	if bad {
 		evs = append(evs, ev{"op": "upreq", "run": run, "count": count, "err": 1, "start": -1})
-		evs = append(evs, wk.upend(run, F, "norequest", false))
+		evs = append(evs, wk.upend(run, F, "norequest", false, 0))
 		return evs, true
 	}
 	x := startXfer(wk.w, ref, wk.c.Addr)
 	defer x.ce.Close()
-	b, st := x.quiesce()
+	ok, st := x.need(2)
 	start := -1
-	if len(b) == 2 {
-		start = sim.BE(b)
+	if ok {
+		start = sim.BE(x.take(2))
 	}
 	evs = append(evs, ev{"op": "upreq", "run": run, "count": count, "err": 0, "start": start})
 	status := ""
-	if st != "waiting" || start != 3 {
-		evs = append(evs, wk.upend(run, F, "nostart:"+st, false))
+	if start != 3 {
+		evs = append(evs, wk.upend(run, F, "nostart:"+st, false, len(x.pending)))
 		return evs, true
 	}
 	for i, it := range items {
@@ -355,37 +379,40 @@ func (wk *worker) upload(run int, runDir, F string, count int, items []step) (ev
 			cut = *it.Cut
 		}
 		_, _ = x.ce.Write(encItemHeader(it.Kind == "dir", p))
-		b, st := x.quiesce()
+		// early = server bytes that were already there before this item was streamed
 		e := ev{"op": "upitem", "run": run, "i": i + 1, "path": it.Path, "kind": it.Kind, "size": it.Size, "cut": cut,
-			"act": -1, "off": -1, "ack": -1, "got": len(b)}
-		if len(b) >= 2 {
-			e["act"] = sim.BE(b[0:2])
-		}
-		act := e["act"].(int)
-		if st == "stalled" || (st == "finished" && i < len(items)-1) || len(b) < 2 {
+			"act": -1, "off": -1, "ack": -1, "early": len(x.pending)}
+		ok, st := x.need(2)
+		if !ok {
 			evs = append(evs, e)
 			status = "broken:" + st
 			break
 		}
-		if it.Kind == "dir" || act == 3 || (act != 1 && act != 2) {
+		act := sim.BE(x.take(2))
+		e["act"] = act
+		if act == 2 {
+			off := -1
+			if ok, _ := x.need(2); ok {
+				rl := sim.BE(x.pending[0:2])
+				if ok, _ := x.need(2 + rl); ok {
+					x.take(2)
+					off = parseResume(x.take(rl))
+				}
+			}
+			e["off"] = off
+			if it.Kind == "dir" || off < 0 || off > it.Size {
+				evs = append(evs, e)
+				status = "badresume"
+				break
+			}
+		}
+		if it.Kind == "dir" || (act != 1 && act != 2) {
 			evs = append(evs, e)
 			continue
 		}
 		off := 0
 		if act == 2 {
-			off = -1
-			if len(b) >= 4 {
-				rl := sim.BE(b[2:4])
-				if len(b) >= 4+rl {
-					off = parseResume(b[4 : 4+rl])
-				}
-			}
-			e["off"] = off
-			if off < 0 || off > it.Size {
-				evs = append(evs, e)
-				status = "badresume"
-				break
-			}
+			off = e["off"].(int)
 		}
 		data := Content(keyOf(p), it.Size)[off:]
 		hdr := encObjectHeader(p[len(p)-1], len(data))
@@ -406,28 +433,34 @@ func (wk *worker) upload(run int, runDir, F string, count int, items []step) (ev
 		}
 		msg = append(msg, data...)
 		_, _ = x.ce.Write(msg)
-		b2, st2 := x.quiesce()
-		if len(b2) == 2 {
-			e["ack"] = sim.BE(b2)
+		ok, st = x.need(2)
+		if ok {
+			e["ack"] = sim.BE(x.take(2))
 		}
 		evs = append(evs, e)
-		if st2 == "stalled" || len(b2) != 2 {
-			status = "broken:" + st2
+		if !ok {
+			status = "broken:" + st
 			break
 		}
 	}
 	if status == "" {
-		// all announced items streamed: the handler returns
-		status = x.waitFinished()
-		if status == "finished" {
+		// all announced items streamed: the handler returns.  If it is instead blocked reading, it expects more.
+		b, st := x.quiesce()
+		x.pending = append(x.pending, b...)
+		switch st {
+		case "finished":
 			status = "done"
+		case "waiting":
+			status = "expects-more"
+		default:
+			status = st
 		}
 	}
-	evs = append(evs, wk.upend(run, F, status, wasCut))
+	evs = append(evs, wk.upend(run, F, status, wasCut, len(x.pending)))
 	return evs, wasCut || status != "done"
 }
 
-func (wk *worker) upend(run int, F, status string, cut bool) ev {
+func (wk *worker) upend(run int, F, status string, cut bool, tail int) ev {
 	snap := []ev{}
 	_, err := os.Stat(F)
 	exists := err == nil
@@ -448,7 +481,7 @@ func (wk *worker) upend(run int, F, status string, cut bool) ev {
 			snap = append(snap, ev{"path": ints(p), "kind": en.Kind, "size": int(en.Size), "partial": partial, "pfx": pfx})
 		}
 	}
-	return ev{"op": "upend", "run": run, "status": status, "cut": cut, "exists": exists, "snap": snap}
+	return ev{"op": "upend", "run": run, "status": status, "cut": cut, "exists": exists, "snap": snap, "tail": tail}
 }
 
 // The folder transfer handlers never close the files they send or receive (DownloadFolderHandler: fileStore.Open;
